@@ -79,11 +79,19 @@ class Collections(Space):
             cs.append((((B[i],), (B[(i + 1) % n],), (B[(i + 2) % n],)), (0, 2)))
             cs.append((((B[i],), (B[(i + 3) % n],), (B[(i + 5) % n],), (B[(i + 7) % n],)), (1,)))
             cs.append((((B[i], B[(i + 1) % n]), (B[(i + 2) % n], B[(i + 4) % n]), (B[(i + 6) % n],)), (0, 1, 2)))
+        # runs of figures followed by every kind of block (the writer lays out consecutive figures as a table of their own)
+        figs = ("img-thumb", "img-big-thumb")
+        for f1 in figs:
+            for f2 in figs:
+                for b3 in B:
+                    cs.append((((f1, f2, b3),), ()))
+                cs.append((((f1, f2, f1, "table-2x2", "p"),), ()))
         if tier != "quick":
             for b1 in B:
                 for b2 in B:
-                    for b3 in B[::2]:
-                        cs.append((((b1, b2, b3),), ()))
+                    for b3 in B:
+                        if not (b1 in figs and b2 in figs):
+                            cs.append((((b1, b2, b3),), ()))
         # page-boundary sweep: the same block group at every distance from the bottom of a page (k lead-in paragraphs)
         groups = ["thumb+paras"] if tier == "quick" else ["thumb+paras", "table-2x2", "ul-ol", "img-gallery", "pre", "dl"]
         for g in groups:
